@@ -10,6 +10,7 @@ import (
 	"fmt"
 	"io"
 	"math"
+	"reflect"
 
 	"gorgonia.org/tensor"
 )
@@ -74,6 +75,9 @@ func (s Shape) String() string {
 }
 
 var ErrInvalidType = errors.New("invalid type")
+
+// ErrInvalidShape is returned when the number of values of a tensor does not match its shape.
+var ErrInvalidShape = errors.New("tensor data does not match its shape")
 
 // Dim is a dimension.
 type Dim struct {
@@ -157,6 +161,10 @@ func getNamesFromTensorProto(protos []*TensorProto) []string {
 
 // TensorFromProto returns a tensor.Tensor from an onnx.TensorProto.
 func TensorFromProto(tp *TensorProto) (tensor.Tensor, error) {
+	if tp == nil {
+		return nil, ErrInvalidType
+	}
+
 	var (
 		values interface{}
 		err    error
@@ -210,7 +218,27 @@ func TensorFromProto(tp *TensorProto) (tensor.Tensor, error) {
 		return nil, err
 	}
 
-	return tensor.New(tensor.WithShape(getDims(tp)...), tensor.WithBacking(values)), nil
+	dims := getDims(tp)
+
+	nElements := 1
+
+	for _, dim := range dims {
+		if dim < 1 {
+			return nil, ErrInvalidShape
+		}
+
+		nElements *= dim
+	}
+
+	if reflect.ValueOf(values).Len() != nElements {
+		return nil, ErrInvalidShape
+	}
+
+	if len(dims) == 0 {
+		return tensor.New(tensor.FromScalar(reflect.ValueOf(values).Index(0).Interface())), nil
+	}
+
+	return tensor.New(tensor.WithShape(dims...), tensor.WithBacking(values)), nil
 }
 
 func getFloatData(tp *TensorProto) ([]float32, error) {
